@@ -359,6 +359,30 @@ def check_property(pid, tier, seed):
             undecided.append("counterexample of %s did not reproduce on the real code (harness fault?)" % fl["item"])
         else:
             violations.append("VIOLATION property=%s replay=%s no-failing-input-found" % (pid, path))
+    # assumed callee contracts of the units of this run, and the unit in which each is proved
+    assumed = []
+    try:
+        proved_in = {}
+        idx = get_index(expanded)
+        for fn in sorted(os.listdir(os.path.join(ROOT, "units"))):
+            if not fn.endswith(".rs.tmpl"):
+                continue
+            base = fn[:-8]
+            fams = FAMILIES if "@ONE" in open(os.path.join(ROOT, "units", fn)).read() else [None]
+            for fam in fams:
+                with RENDER_LOCK:
+                    _t, tab, _l = rxtract.render_unit(idx, os.path.join(ROOT, "units", fn), ROOT, params={"FAM": fam} if fam else None)
+                for row in tab:
+                    if not row.get("assumed") and not row.get("sig_only"):
+                        proved_in.setdefault(row["item"], base)
+        seen = set()
+        for r in results:
+            for row in r["table"]:
+                if row.get("assumed") and row["item"] not in seen:
+                    seen.add(row["item"])
+                    assumed.append({"item": row["item"], "assumed_in": r["unit"].split("@")[0], "proved_in": proved_in.get(row["item"], "NOT PROVED BY ANY VERUS UNIT (see level_note)")})
+    except Exception as e:   # informational only
+        assumed = [{"error": repr(e)}]
     uncovered = None
     if spec.get("scan_uncovered"):
         uncovered = scan_uncovered(expanded, results)
@@ -392,6 +416,8 @@ def check_property(pid, tier, seed):
             "kani_harnesses": [{k2: k[k2] for k2 in ("harness", "status", "checks", "time_s") if k2 in k} for k in kani_res],
             "expansion_s": round(exp_s, 1),
             "public_fn_coverage": uncovered,
+            "assumed_callee_contracts": {"count": len(assumed), "not_proved_anywhere": [a for a in assumed if str(a.get("proved_in", "")).startswith("NOT")][:40],
+                                         "sample": assumed[:8]},
         },
         "assumptions": PROPS.COMMON_ASSUMPTIONS + spec.get("assumptions", []),
     }
